@@ -134,15 +134,25 @@ fn from_json(case: &Value) -> Value {
 
 // ---- C20: the same template resolved on a fresh and on a reused compiler instance -----------
 
-struct EmptyStore;
+/// a store holding the UTxOs of the case (`utxos`: same JSON shape as the pipeline inputs)
+struct ListStore(Vec<Utxo>);
 
-impl tx3_resolver::UtxoStore for EmptyStore {
-    async fn narrow_refs(&self, _: tx3_resolver::UtxoPattern<'_>) -> Result<HashSet<tx3_tir::model::core::UtxoRef>, tx3_resolver::Error> {
-        Ok(HashSet::new())
+impl tx3_resolver::UtxoStore for ListStore {
+    async fn narrow_refs(&self, pattern: tx3_resolver::UtxoPattern<'_>) -> Result<HashSet<tx3_tir::model::core::UtxoRef>, tx3_resolver::Error> {
+        Ok(self
+            .0
+            .iter()
+            .filter(|u| match &pattern {
+                tx3_resolver::UtxoPattern::ByAddress(a) => u.address.as_slice() == *a,
+                tx3_resolver::UtxoPattern::ByAssetPolicy(p) => u.assets.iter().any(|(c, _)| matches!(c, AssetClass::Defined(x, _) if x.as_slice() == *p)),
+                tx3_resolver::UtxoPattern::ByAsset(p, n) => u.assets.iter().any(|(c, _)| matches!(c, AssetClass::Defined(x, y) if x.as_slice() == *p && y.as_slice() == *n)),
+            })
+            .map(|u| u.r#ref.clone())
+            .collect())
     }
 
-    async fn fetch_utxos(&self, _: HashSet<tx3_tir::model::core::UtxoRef>) -> Result<tx3_tir::model::core::UtxoSet, tx3_resolver::Error> {
-        Ok(Default::default())
+    async fn fetch_utxos(&self, refs: HashSet<tx3_tir::model::core::UtxoRef>) -> Result<tx3_tir::model::core::UtxoSet, tx3_resolver::Error> {
+        Ok(self.0.iter().filter(|u| refs.contains(&u.r#ref)).cloned().collect())
     }
 }
 
@@ -162,10 +172,9 @@ fn block_on<F: std::future::Future>(f: F) -> F::Output {
     }
 }
 
-fn outcome(comp: &mut tx3_cardano::Compiler, tx: &tir::Tx, rounds: usize) -> Value {
+fn outcome(comp: &mut tx3_cardano::Compiler, tx: &tir::Tx, rounds: usize, store: &ListStore, args: &BTreeMap<String, ArgValue>) -> Value {
     let any = tx3_tir::encoding::AnyTir::V1Beta0(tx.clone());
-    let args = BTreeMap::new();
-    let r = std::panic::catch_unwind(std::panic::AssertUnwindSafe(|| block_on(tx3_resolver::resolve_tx(any, &args, comp, &EmptyStore, rounds))));
+    let r = std::panic::catch_unwind(std::panic::AssertUnwindSafe(|| block_on(tx3_resolver::resolve_tx(any, args, comp, store, rounds))));
     match r {
         Ok(Ok(c)) => json!({ "ok": { "payload": hex::encode(&c.payload), "hash": hex::encode(&c.hash), "fee": c.fee } }),
         Ok(Err(e)) => {
@@ -182,8 +191,10 @@ fn history(case: &Value) -> Value {
     let rounds = case["rounds"].as_u64().unwrap_or(3) as usize;
     let mut fresh = compiler(1000, 5_000_000);
     let mut used = compiler(1000, 5_000_000);
-    let before: Vec<Value> = earlier.iter().map(|t| outcome(&mut used, t, rounds)).collect();
-    json!({ "earlier": before, "fresh": outcome(&mut fresh, &tx, rounds), "reused": outcome(&mut used, &tx, rounds) })
+    let store = ListStore(case["utxos"].as_array().map(|a| a.iter().map(utxo_of).collect()).unwrap_or_default());
+    let args: BTreeMap<String, ArgValue> = if case["args"].is_object() { serde_json::from_value(case["args"].clone()).expect("args") } else { BTreeMap::new() };
+    let before: Vec<Value> = earlier.iter().map(|t| outcome(&mut used, t, rounds, &store, &args)).collect();
+    json!({ "earlier": before, "fresh": outcome(&mut fresh, &tx, rounds, &store, &args), "reused": outcome(&mut used, &tx, rounds, &store, &args) })
 }
 
 fn main() {
